@@ -75,6 +75,14 @@ def step (line : String) : String :=
                     toHex (fileBytes calls) ++ " " ++ showCalls calls
       | none => "bad-op"
     | _, _, _ => "bad-op"
+  | ["read", cols, file, tab] =>
+    match parseCols cols with
+    | some cols => readAll cols (parseDecomp tab) (unhex file)
+    | none => "bad-op"
+  | ["parse", cols, mx, file, tab] =>
+    match parseCols cols, mx.toNat? with
+    | some cols, some mx => showParse cols (parseFile (parseDecomp tab) cols mx (unhex file))
+    | _, _ => "bad-op"
   | ["pack", w, g] =>
     match w.toNat? with
     | some w => toHex (pack w (unhex g))
